@@ -6,6 +6,8 @@ use crate::report::Tier;
 pub mod c01;
 pub mod c03;
 pub mod c05;
+pub mod c06;
+pub mod c07;
 pub mod c11;
 pub mod c12;
 pub mod c13;
@@ -26,6 +28,8 @@ pub fn all() -> Vec<CheckDef> {
         CheckDef { id: "C03", shards: one, run: c03::run, replay: Some(c03::replay) },
         CheckDef { id: "C04", shards: one, run: c05::run_c04, replay: Some(c05::replay_c04) },
         CheckDef { id: "C05", shards: one, run: c05::run_c05, replay: Some(c05::replay_c05) },
+        CheckDef { id: "C06", shards: one, run: c06::run, replay: Some(c06::replay) },
+        CheckDef { id: "C07", shards: one, run: c07::run, replay: Some(c07::replay) },
         CheckDef { id: "C11", shards: one, run: c11::run, replay: Some(c11::replay) },
         CheckDef { id: "C12", shards: one, run: c12::run, replay: Some(c12::replay) },
         CheckDef { id: "C13", shards: one, run: c13::run, replay: Some(c13::replay) },
